@@ -44,14 +44,22 @@ pub fn generate(mt: &str, src: &mut Src) -> TokCase {
     let mut ops = Vec::new();
     let n_ops = src.below(40);
     for _ in 0..n_ops {
-        let t = if tags.is_empty() { "20".to_string() } else { tags[src.below(tags.len())].clone() };
+        let t = if tags.is_empty() {
+            "20".to_string()
+        } else {
+            tags[src.below(tags.len())].clone()
+        };
         let base = numeric_base(&t);
         match src.below(5) {
             0 => ops.push(TrackerOp::Peek(t)),
             1 | 2 => ops.push(TrackerOp::Take(t)),
             3 => ops.push(TrackerOp::Find(base, None)),
             _ => {
-                let letters: Vec<String> = tags.iter().filter(|x| numeric_base(x) == base && x.len() > base.len()).map(|x| x[base.len()..].to_string()).collect();
+                let letters: Vec<String> = tags
+                    .iter()
+                    .filter(|x| numeric_base(x) == base && x.len() > base.len())
+                    .map(|x| x[base.len()..].to_string())
+                    .collect();
                 let mut cons: Vec<String> = letters.into_iter().filter(|_| src.flip()).collect();
                 cons.sort();
                 cons.dedup();
@@ -62,7 +70,12 @@ pub fn generate(mt: &str, src: &mut Src) -> TokCase {
             }
         }
     }
-    TokCase { mt: mt.to_string(), text, ops, class: c.mutation }
+    TokCase {
+        mt: mt.to_string(),
+        text,
+        ops,
+        class: c.mutation,
+    }
 }
 
 fn norm_ws(s: &str) -> String {
@@ -80,7 +93,8 @@ pub fn oracle(c: &TokCase, obs: &mut Obs) -> Vec<Violation> {
         let mut seen = std::collections::HashSet::new();
         toks.iter().any(|t| !seen.insert(t.tag.clone()))
     };
-    let mixes = c.ops.iter().any(|o| matches!(o, TrackerOp::Find(..))) && c.ops.iter().any(|o| matches!(o, TrackerOp::Take(..)));
+    let mixes = c.ops.iter().any(|o| matches!(o, TrackerOp::Find(..)))
+        && c.ops.iter().any(|o| matches!(o, TrackerOp::Take(..)));
     if multi || mixes {
         obs.nontrivial_str(&format!("{}|{:?}", c.text, c.ops));
     }
@@ -90,7 +104,10 @@ pub fn oracle(c: &TokCase, obs: &mut Obs) -> Vec<Violation> {
         Ok(m) => m,
         Err(e) => {
             if !e.is_panic() {
-                out.push(viol("C16|tokenise|rejected", format!("well-delimited text rejected: {}\n{}", e.text(), c.text)));
+                out.push(viol(
+                    "C16|tokenise|rejected",
+                    format!("well-delimited text rejected: {}\n{}", e.text(), c.text),
+                ));
             }
             return out;
         }
@@ -103,29 +120,72 @@ pub fn oracle(c: &TokCase, obs: &mut Obs) -> Vec<Violation> {
         }
     }
     flat.sort_by_key(|x| x.2);
+    {
+        // position stamps must identify an occurrence (they are the only order information of the map)
+        let mut ps: Vec<usize> = flat.iter().map(|x| x.2).collect();
+        ps.dedup();
+        let mut q = ps.clone();
+        q.sort();
+        q.dedup();
+        if q.len() != flat.len() {
+            out.push(viol("C16|tokenise|position-stamps-collide", format!("{} entries but only {} distinct position stamps (the stamp keeps 16 bits of the field index)", flat.len(), q.len())));
+            return out;
+        }
+    }
     if flat.len() != toks.len() {
-        let class = if flat.len() < toks.len() { "lost" } else { "invented" };
-        out.push(viol(format!("C16|tokenise|{class}"), format!("{} fields in the text, {} entries in the map\n{}\n{:?}", toks.len(), flat.len(), c.text, flat)));
+        let class = if flat.len() < toks.len() {
+            "lost"
+        } else {
+            "invented"
+        };
+        out.push(viol(
+            format!("C16|tokenise|{class}"),
+            format!(
+                "{} fields in the text, {} entries in the map\n{}\n{:?}",
+                toks.len(),
+                flat.len(),
+                c.text,
+                flat
+            ),
+        ));
         return out;
     }
     let mut keymap: BTreeMap<String, String> = BTreeMap::new();
     for (i, (t, f)) in toks.iter().zip(flat.iter()).enumerate() {
         let base = numeric_base(&t.tag);
         if f.0 != t.tag && f.0 != base {
-            out.push(viol("C16|tokenise|order-or-tag", format!("entry {i} in position order is {:?} but field {i} of the text is {}:{:?}", f, t.tag, t.content)));
+            out.push(viol(
+                "C16|tokenise|order-or-tag",
+                format!(
+                    "entry {i} in position order is {:?} but field {i} of the text is {}:{:?}",
+                    f, t.tag, t.content
+                ),
+            ));
             return out;
         }
         if norm_ws(&f.1) != norm_ws(&t.content) {
-            out.push(viol("C16|tokenise|content", format!("field {} content {:?} stored as {:?}", t.tag, t.content, f.1)));
+            out.push(viol(
+                "C16|tokenise|content",
+                format!(
+                    "field {} content {:?} stored as {:?}",
+                    t.tag, t.content, f.1
+                ),
+            ));
             return out;
         }
         if let Some(prev) = keymap.insert(t.tag.clone(), f.0.clone()) {
             if prev != f.0 {
-                out.push(viol("C16|tokenise|tag-normalisation", format!("raw tag {} stored under {} and under {}", t.tag, prev, f.0)));
+                out.push(viol(
+                    "C16|tokenise|tag-normalisation",
+                    format!("raw tag {} stored under {} and under {}", t.tag, prev, f.0),
+                ));
             }
         }
         if i > 0 && flat[i].2 <= flat[i - 1].2 {
-            out.push(viol("C16|tokenise|positions-not-increasing", format!("position stamps {} then {}", flat[i - 1].2, flat[i].2)));
+            out.push(viol(
+                "C16|tokenise|positions-not-increasing",
+                format!("position stamps {} then {}", flat[i - 1].2, flat[i].2),
+            ));
             return out;
         }
     }
@@ -133,11 +193,17 @@ pub fn oracle(c: &TokCase, obs: &mut Obs) -> Vec<Violation> {
     for (raw, key) in &keymap {
         if let Ok(n) = normalize_tag(raw) {
             if &n != key {
-                out.push(viol("C16|tokenise|tag-normalisation", format!("normalize_field_tag({raw}) = {n} but the map uses {key}")));
+                out.push(viol(
+                    "C16|tokenise|tag-normalisation",
+                    format!("normalize_field_tag({raw}) = {n} but the map uses {key}"),
+                ));
             }
             if let Ok(n2) = normalize_tag(&n) {
                 if n2 != n {
-                    out.push(viol("C16|tokenise|tag-normalisation", format!("normalisation not idempotent: {raw} -> {n} -> {n2}")));
+                    out.push(viol(
+                        "C16|tokenise|tag-normalisation",
+                        format!("normalisation not idempotent: {raw} -> {n} -> {n2}"),
+                    ));
                 }
             }
         }
@@ -157,9 +223,19 @@ pub fn oracle(c: &TokCase, obs: &mut Obs) -> Vec<Violation> {
                 for (op, r) in c.ops.iter().zip(res.iter()) {
                     match op {
                         TrackerOp::Peek(tag) | TrackerOp::Take(tag) => {
-                            let exp = map.get(tag).and_then(|vs| vs.iter().find(|(_, p)| !consumed.get(tag).map(|c| c.contains(p)).unwrap_or(false))).map(|(v, p)| (tag.clone(), v.clone(), *p));
+                            let exp = map
+                                .get(tag)
+                                .and_then(|vs| {
+                                    vs.iter().find(|(_, p)| {
+                                        !consumed.get(tag).map(|c| c.contains(p)).unwrap_or(false)
+                                    })
+                                })
+                                .map(|(v, p)| (tag.clone(), v.clone(), *p));
                             if *r != exp {
-                                out.push(viol("C16|tracker|next-available", format!("{:?}: expected {:?}, got {:?}", op, exp, r)));
+                                out.push(viol(
+                                    "C16|tracker|next-available",
+                                    format!("{:?}: expected {:?}, got {:?}", op, exp, r),
+                                ));
                                 return out;
                             }
                             if let (TrackerOp::Take(_), Some((_, _, p))) = (op, r) {
@@ -184,11 +260,28 @@ pub fn oracle(c: &TokCase, obs: &mut Obs) -> Vec<Violation> {
                                 }
                                 false
                             };
-                            let remaining: Vec<(String, usize)> = map.iter().filter(|(k, _)| eligible(k)).flat_map(|(k, vs)| vs.iter().filter(|(_, p)| !consumed.get(k).map(|c| c.contains(p)).unwrap_or(false)).map(|(_, p)| (k.clone(), *p)).collect::<Vec<_>>()).collect();
+                            let remaining: Vec<(String, usize)> = map
+                                .iter()
+                                .filter(|(k, _)| eligible(k))
+                                .flat_map(|(k, vs)| {
+                                    vs.iter()
+                                        .filter(|(_, p)| {
+                                            !consumed.get(k).map(|c| c.contains(p)).unwrap_or(false)
+                                        })
+                                        .map(|(_, p)| (k.clone(), *p))
+                                        .collect::<Vec<_>>()
+                                })
+                                .collect();
                             match r {
                                 None => {
                                     if !remaining.is_empty() {
-                                        out.push(viol("C16|tracker|find-misses-occurrence", format!("{:?} returned None although {:?} are unconsumed", op, remaining)));
+                                        out.push(viol(
+                                            "C16|tracker|find-misses-occurrence",
+                                            format!(
+                                                "{:?} returned None although {:?} are unconsumed",
+                                                op, remaining
+                                            ),
+                                        ));
                                         return out;
                                     }
                                 }
@@ -198,14 +291,28 @@ pub fn oracle(c: &TokCase, obs: &mut Obs) -> Vec<Violation> {
                                         return out;
                                     }
                                     // per key: the first unconsumed position of that key
-                                    let first = remaining.iter().filter(|(rk, _)| rk == k).map(|(_, rp)| *rp).min().unwrap();
+                                    let first = remaining
+                                        .iter()
+                                        .filter(|(rk, _)| rk == k)
+                                        .map(|(_, rp)| *rp)
+                                        .min()
+                                        .unwrap();
                                     if *p != first {
                                         out.push(viol("C16|tracker|find-out-of-order", format!("{:?} returned position {} of {} although {} is still unconsumed", op, p, k, first)));
                                         return out;
                                     }
-                                    let stored = map.get(k).and_then(|vs| vs.iter().find(|(_, q)| q == p)).map(|x| x.0.clone());
+                                    let stored = map
+                                        .get(k)
+                                        .and_then(|vs| vs.iter().find(|(_, q)| q == p))
+                                        .map(|x| x.0.clone());
                                     if stored.as_deref() != Some(v.as_str()) {
-                                        out.push(viol("C16|tracker|find-wrong-value", format!("{:?} returned value {:?} for position {}", op, v, p)));
+                                        out.push(viol(
+                                            "C16|tracker|find-wrong-value",
+                                            format!(
+                                                "{:?} returned value {:?} for position {}",
+                                                op, v, p
+                                            ),
+                                        ));
                                     }
                                     consumed.entry(k.clone()).or_default().push(*p);
                                 }
@@ -218,7 +325,21 @@ pub fn oracle(c: &TokCase, obs: &mut Obs) -> Vec<Violation> {
     }
     // ---- sequences: every field in exactly one sequence
     let (marker, cf, has_c) = sequence_config(&format!("MT{}", c.mt));
-    for (m, cfv, hc, which) in [(marker.clone(), cf.clone(), has_c, "own-config"), ("21".to_string(), vec!["32B".to_string(), "19".to_string()], true, "generic-config"), ("61".to_string(), vec!["62F".to_string(), "64".to_string(), "86".to_string()], true, "statement-config")] {
+    for (m, cfv, hc, which) in [
+        (marker.clone(), cf.clone(), has_c, "own-config"),
+        (
+            "21".to_string(),
+            vec!["32B".to_string(), "19".to_string()],
+            true,
+            "generic-config",
+        ),
+        (
+            "61".to_string(),
+            vec!["62F".to_string(), "64".to_string(), "86".to_string()],
+            true,
+            "statement-config",
+        ),
+    ] {
         match split_sequences(&map, &m, &cfv, hc) {
             Err(e) => {
                 if !e.is_panic() {
@@ -236,8 +357,21 @@ pub fn oracle(c: &TokCase, obs: &mut Obs) -> Vec<Violation> {
                 }
                 all.sort_by_key(|x| x.2);
                 if all != flat {
-                    let class = if all.len() < flat.len() { "lost" } else if all.len() > flat.len() { "duplicated" } else { "changed" };
-                    out.push(viol(format!("C16|sequences|{class}|{which}"), format!("sequences A+B+C hold {} entries, the map {}", all.len(), flat.len())));
+                    let class = if all.len() < flat.len() {
+                        "lost"
+                    } else if all.len() > flat.len() {
+                        "duplicated"
+                    } else {
+                        "changed"
+                    };
+                    out.push(viol(
+                        format!("C16|sequences|{class}|{which}"),
+                        format!(
+                            "sequences A+B+C hold {} entries, the map {}",
+                            all.len(),
+                            flat.len()
+                        ),
+                    ));
                 }
             }
         }
@@ -258,7 +392,15 @@ pub fn oracle(c: &TokCase, obs: &mut Obs) -> Vec<Violation> {
             None => Vec::new(),
         };
         if all != expect {
-            out.push(viol("C16|repetitive|not-a-partition", format!("items hold {} entries, expected the {} fields from the first {} on", all.len(), expect.len(), marker)));
+            out.push(viol(
+                "C16|repetitive|not-a-partition",
+                format!(
+                    "items hold {} entries, expected the {} fields from the first {} on",
+                    all.len(),
+                    expect.len(),
+                    marker
+                ),
+            ));
         }
     }
     out
@@ -269,11 +411,32 @@ pub fn run(ctx: &Ctx) {
     ctx.assume("domain: content lines never start with ':' or '-' and nothing precedes the first field (the tokeniser's behaviour there is documented nowhere)");
     ctx.assume("find-by-base across different option letters: only per-tag order and exactly-once are judged, not the order between different tags");
     let to_json = |c: &TokCase| serde_json::to_value(c).unwrap();
-    ctx.run_generated("tokens", MSGS.len(), ctx.n(2000, 50000), 2000, &|sh, src: &mut Src| generate(mt_of_shard(sh), src), &oracle, &to_json);
+    ctx.run_generated(
+        "tokens",
+        MSGS.len(),
+        ctx.n(2000, 50000),
+        2000,
+        &|sh, src: &mut Src| generate(mt_of_shard(sh), src),
+        &oracle,
+        &to_json,
+    );
     if !ctx.quick() {
         // > 65 536 fields: position stamps must still be strictly increasing
-        let big: Vec<TokCase> = vec![TokCase { mt: "940".into(), text: (0..66000).map(|i| format!(":61:LINE{i}\n")).collect::<String>(), ops: vec![], class: "65536+".into() }];
-        ctx.run_enumerated("huge", 1, &|_| big.clone(), &oracle, &|c: &TokCase| json!({"mt": c.mt, "class": c.class, "fields": 66000}));
+        let big: Vec<TokCase> = vec![TokCase {
+            mt: "940".into(),
+            text: (0..66000)
+                .map(|i| format!(":61:LINE{i}\n"))
+                .collect::<String>(),
+            ops: vec![],
+            class: "65536+".into(),
+        }];
+        ctx.run_enumerated(
+            "huge",
+            1,
+            &|_| big.clone(),
+            &oracle,
+            &|c: &TokCase| json!({"mt": c.mt, "class": c.class, "fields": 66000}),
+        );
     }
 }
 
